@@ -72,27 +72,40 @@ Proof. exact model_total. Qed.
 Print Assumptions C05_total.
 
 (* Cross-client requests: a second client Y (registered with method vm, never presenting its
-   own credential) owns the code / refresh token / device code / token of the case, and the
+   own credential, registered for every grant or for none) owns the code / refresh token / device code / token of the case, and the
    request mixes a valid credential of X with Y's id. [names_other p]: Y's id sits in the slot
    the parsers read (Basic before form; the last of two client_id values) - the theorems above
    then speak about X only when it is false. [w] = the client the answer acted for. Whatever is
    issued, revoked or reported active in Y's name is justified by Y's own registration for a
-   request that merely names Y ... *)
+   request that merely names Y ([other_gap]: the recorded gap Fxx-C05-4 when the acting client
+   is Y: Provider router, device_code grant, Y not registered for it) ... *)
 Theorem C05_acts_for_other : forall i s e tok act,
+  other_gap i = false ->
   model i = ORes s e tok act WOther -> other_justified i = true.
 Proof. exact acts_for_other. Qed.
 Print Assumptions C05_acts_for_other.
 
 (* ... hence never for a confidential Y, except a device code (which needs no authentication). *)
-Theorem C05_never_for_confidential : forall i s e tok act vm,
-  model i = ORes s e tok act WOther -> victim_of (i_pres i) = Some vm -> vm <> MNone ->
+Theorem C05_never_for_confidential : forall i s e tok act v,
+  other_gap i = false ->
+  model i = ORes s e tok act WOther -> victim_of (i_pres i) = Some v -> v_meth v <> MNone ->
   i_endpoint i = EDeviceAuthz.
 Proof. exact never_for_confidential. Qed.
 Print Assumptions C05_never_for_confidential.
 
+(* ... and a device authorization is stored in Y's name only if Y itself is registered for the
+   device grant: the device-authorization endpoint acts only for a known client registered for
+   the device grant, whoever authenticated. *)
+Theorem C05_device_code_for_other_needs_grant : forall i s e tok act v,
+  model i = ORes s e tok act WOther -> victim_of (i_pres i) = Some v -> i_endpoint i = EDeviceAuthz ->
+  registered (victim_reg v) GDevice = true.
+Proof. exact device_code_for_other_needs_grant. Qed.
+Print Assumptions C05_device_code_for_other_needs_grant.
+
 (* The property predicate evaluated by the correspondence run holds of the model on every
    input outside the gap, and fails inside it. *)
-Theorem C05_spec_model_partial : forall i, known_gap i = false -> spec i (model i) = true.
+Theorem C05_spec_model_partial : forall i,
+  known_gap i = false -> other_gap i = false -> spec i (model i) = true.
 Proof. exact spec_model. Qed.
 Print Assumptions C05_spec_model_partial.
 
